@@ -566,9 +566,87 @@ static void drawPgs(Rng& r, Cfg& c, bool th, bool bi)
   if (bi) c.sig += fmt(":nfac2=%d:ngrf2=%d", c.nfac2, ruleUsesT(c.rule2) ? 2 : 1);
 }
 
-static Cfg drawCfg(Rng& r, bool th)
+// ---- fixed scenarios ---------------------------------------------------------------------------------------------
+// Every FIXED_PERIOD-th case is a fixed (seed-independent) scenario, so that the input classes of the open findings that the
+// random generator only reaches occasionally are exercised by every run of both tiers, under the same keys as the random cases:
+//   0  gibbs, upper-only bound next to a conflicting lower-only bound (normalised upper bound below -20)
+//   1  gibbs with a moving neighbourhood on a 7x7 lattice with a gaussian covariance (condition number ~1e6)
+//   2  gibbs multi-mono with a bivariate model
+//   3  generator-level seed semantics
+static const long FIXED_PERIOD = 200, FIXED_PHASE = 7;
+static bool isFixedCase(long icase) { return icase % FIXED_PERIOD == FIXED_PHASE; }
+static void fixedGibbs(Cfg& c, int sub)
+{
+  const double T = 1.234e30;
+  c.family = F_GIBBS;
+  c.ndim   = 2;
+  c.model.ndim = 2;
+  c.targetGrid = false;
+  c.ntarget    = 0;
+  CovSpec cv;
+  cv.param = 1.;
+  if (sub == 0)
+  {
+    // samples 1 and 2 are 0.08 apart under a cubic covariance of range 5 (correlation 0.998, conditional st. dev. 0.06):
+    // with Y1 >= 2.8 the bound Y2 <= 1.1 is 28 conditional standard deviations below the conditional mean
+    c.model.nvar = 1;
+    cv.type = "CUBIC"; cv.ranges = {5., 5.}; cv.sills = {1.};
+    c.ndat  = 6;
+    c.dfree = {1., 5., 5.08, 9., 2., 8.,   1., 5., 5., 2., 8., 7.};
+    c.L = {T, 2.8, T, T, T, T};
+    c.U = {T, T, 1.1, T, T, T};
+    c.gMoving = false; c.nburn = 5; c.niter = 40; c.percent = 0.;
+    c.sig = "fixed:gibbs:upper-only-vs-close-lower-only";
+  }
+  else if (sub == 1)
+  {
+    c.model.nvar = 1;
+    cv.type = "GAUSSIAN"; cv.ranges = {3.5, 3.5}; cv.sills = {1.};
+    int k = 7, n = k * k;
+    c.ndat = n;
+    c.dfree.resize(2 * n);
+    for (int i = 0; i < n; i++)
+    {
+      c.dfree[i]     = (i % k) * 1.0 + 0.013 * ((i * 7) % 5);
+      c.dfree[n + i] = (i / k) * 1.0 + 0.011 * ((i * 3) % 7);
+    }
+    c.L.assign(n, T);
+    c.U.assign(n, T);
+    c.gMoving = true; c.nburn = 5; c.niter = 80; c.percent = 0.;
+    c.sig = "fixed:gibbs:moving:gaussian-lattice";
+  }
+  else
+  {
+    c.model.nvar = 2;
+    cv.type = "SPHERICAL"; cv.ranges = {5., 5.}; cv.sills = {1., 0.5, 0.5, 1.};
+    c.ndat  = 5;
+    c.dfree = {1., 4., 7., 2., 8.,   3., 9., 2., 6., 1.};
+    c.L.assign(10, T);
+    c.U.assign(10, T);
+    c.L[1] = 0.5; c.U[7] = -0.5;
+    c.gMoving = false; c.gMM = true; c.nburn = 5; c.niter = 30; c.percent = 5.;
+    c.sig = "fixed:gibbs:multimono-bivariate";
+  }
+  c.model.covs  = {cv};
+  c.model.means.assign(c.model.nvar, 0.);
+  c.datTarget.assign(c.ndat, -1);
+  c.gNorm = false;
+  c.nbsimu = 1;
+  c.seed   = 4321;
+  c.gseed  = 0;
+}
+
+static Cfg drawCfg(Rng& r, bool th, long icase)
 {
   Cfg c;
+  if (isFixedCase(icase))
+  {
+    int sub = (int)((icase / FIXED_PERIOD) % 4);
+    if (sub == 2 && AVOID_GIBBS_MULTIMONO_NVAR2) sub = 0;
+    if (sub < 3) fixedGibbs(c, sub);
+    else { c.family = F_SEED; c.sig = "fixed:seed"; }
+    return c;
+  }
   int f = r.irange(0, 99);
   if (f < 45) drawTub(r, c, th);
   else if (f < 53) drawFft(r, c, th);
@@ -832,7 +910,7 @@ static Blob freshFn(const Blob& req)
   if (req.size() != sizeof q) return Blob();
   memcpy(&q, req.data(), sizeof q);
   Rng r(q.vseed, "C13", (uint64_t)q.icase);
-  Cfg c = drawCfg(r, q.thorough != 0);
+  Cfg c = drawCfg(r, q.thorough != 0, (long)q.icase);
   Out o = execute(c, q.simseed, q.gseed);
   return o.pack();
 }
@@ -1157,6 +1235,7 @@ static void caseGibbs(Rng& r, Ctx& c, const Cfg& cfg)
   // adds its nugget to monovariate pure-gaussian models) conditional variances 1/Cinv(i,i) come out negative or huge and
   // the output is NaN or O(100). Reproducibility is still monitored on those cases.
   bool illcond = false;
+  double kappaOut = 0;
   {
     defineDefaultSpace(ESpaceType::RN, cfg.ndim);
     ModelSpec ms = cfg.model;
@@ -1184,17 +1263,21 @@ static void caseGibbs(Rng& r, Ctx& c, const Cfg& cfg)
     illcond = !(kappa <= 1e8);
     if (c.verbose) fprintf(stderr, "gibbs: condition number of the data covariance matrix %.3g\n", kappa);
     c.putn("kappa", kappa);
+    kappaOut = kappa;
   }
   if (illcond) c.skip("gibbs:bounds:illcond");
   else
   {
-    // a NaN / infinite output with return code 0 is reported once, under its own key (the bounds oracles would only repeat it)
+    // a NaN / infinite / absurd (|y| > 1000 for unit-variance Gaussian values with bounds inside +-5) output with return code 0
+    // is reported once, under its own key (the bounds oracles would only repeat it)
     int bad = 0;
+    double worst = 0;
     for (auto& col : A.cols)
       for (double v : col)
-        if (!std::isfinite(v)) bad++;
-    if (!c.truth("defined", K(cfg, std::string("nan-output") + (cfg.gMoving ? ":moving" : ":unique")), bad == 0,
-                 fmt("%d NaN / infinite values returned with return code 0", bad)))
+        if (!std::isfinite(v) || std::fabs(v) > 1e3) { bad++; worst = std::isfinite(v) ? std::max(worst, std::fabs(v)) : INFINITY; }
+    if (!c.truth("defined", K(cfg, std::string("diverges") + (cfg.gMoving ? ":moving" : ":unique")), bad == 0,
+                 fmt("%d NaN / infinite / diverged values (largest %g) returned with return code 0; condition number of the data covariance %.3g",
+                     bad, worst, kappaOut)))
       illcond = true; // skip the bounds oracles below
   }
   auto btype = [&](int iv, int i) -> std::string {
@@ -1216,7 +1299,7 @@ static void caseGibbs(Rng& r, Ctx& c, const Cfg& cfg)
       if (col < 0) { c.skip("gibbs:name-not-found"); continue; }
       int ws;
       double e = viol(col, iv, ws);
-      c.check("bounds-named", K(cfg, std::string("bounds:by-name") + (nvar > 1 && nbs > 1 ? ":nvar>1:nbsimu>1" : ":" + btype(iv, ws))),
+      c.check("bounds-named", K(cfg, nvar > 1 && nbs > 1 ? std::string("bounds:by-name:nvar>1:nbsimu>1") : "bounds:" + btype(iv, ws)),
               e <= tol, e, tol,
               e <= tol ? "" : fmt("column %s sample %d value %.17g outside [%g,%g] of variable %d", nm.c_str(), ws, A.cols[col][ws],
                                   cfg.L[iv * n + ws], cfg.U[iv * n + ws], iv + 1));
@@ -1244,7 +1327,7 @@ static void caseGibbs(Rng& r, Ctx& c, const Cfg& cfg)
     if (bestW > tol && bc >= 0 && bsam >= 0)
       det = fmt("%s layout: column %s sample %d value %.17g outside [%g,%g] of variable %d", blay == 0 ? "variable-major" : "simulation-major",
                 A.names[bc].c_str(), bsam, A.cols[bc][bsam], cfg.L[bvar * n + bsam], cfg.U[bvar * n + bsam], bvar + 1);
-    c.check("bounds", K(cfg, std::string("bounds:any-layout:") + btype(bvar, bestW > tol ? bsam : -1)), bestW <= tol, bestW, tol, det);
+    c.check("bounds", K(cfg, std::string("bounds:") + btype(bvar, bestW > tol ? bsam : -1)), bestW <= tol, bestW, tol, det);
   }
   // equalities are reproduced exactly (AGibbs::_isConstraintTight: "data is a hard data")
   // free samples = not an equality in any variable
@@ -1450,8 +1533,11 @@ static void caseBiPgs(Rng& r, Ctx& c, const Cfg& cfg)
             if (A.cols[ip + 2 * is][t] != f) badB++;
           }
       int bad = std::min(badA, badB);
-      c.check("facies-at-data", K(cfg, fmt("facies-at-data:ngrf=%d+%d", ruleUsesT(cfg.rule) ? 2 : 1, ruleUsesT(cfg.rule2) ? 2 : 1) + (nbs > 1 ? ":nbsimu>1" : ":nbsimu=1")), bad == 0, bad, 0,
-              bad == 0 ? "" : fmt("%d (pgs-major layout) / %d (simulation-major layout) data facies not honoured", badA, badB));
+      // two input classes: the storage of the Gibbs gaussians depends on the layout as soon as nbsimu > 1 or the two rules use a
+      // different number of GRFs (open finding on AGibbs::storeResult / getRank); otherwise it does not
+      int g1 = ruleUsesT(cfg.rule) ? 2 : 1, g2 = ruleUsesT(cfg.rule2) ? 2 : 1;
+      c.check("facies-at-data", K(cfg, (nbs > 1 || g1 != g2) ? "facies-at-data:nbsimu>1-or-ngrf1!=ngrf2" : "facies-at-data:nbsimu=1:ngrf1=ngrf2"), bad == 0, bad, 0,
+              bad == 0 ? "" : fmt("ngrf=%d+%d nbsimu=%d: ", g1, g2, nbs) + fmt("%d (pgs-major layout) / %d (simulation-major layout) data facies not honoured", badA, badB));
     }
   }
   reproOracles(r, c, cfg, A, cls, freeS, !cfg.flagGaus);
@@ -1521,7 +1607,7 @@ static void dumpCfg(const Cfg& c)
 
 static void run_case(Rng& r, Ctx& c)
 {
-  Cfg cfg = drawCfg(r, c.thorough());
+  Cfg cfg = drawCfg(r, c.thorough(), c.icase);
   c.setSig(cfg.sig);
   c.puts("family", FAMN[cfg.family]);
   c.puts("config", cfg.sig);
